@@ -16,11 +16,14 @@ Does not decide: bounded-time completion under every interleaving, absence of ev
 from __future__ import annotations
 
 import ast
+import itertools
+from types import SimpleNamespace
 from typing import Any, Dict, List, Optional, Set, Tuple
 
 from engine.callgraph import CallGraph
 from engine.events import EventsDomain, EvState, call_name
-from engine.index import AnalysisError, FuncInfo, Program, mangle, unparse, walk_no_nested
+from engine.index import AnalysisError, FuncInfo, Program, Unknown, mangle, unparse, walk_no_nested
+from engine.peval import Raised
 from engine.report import Report, mk_finding
 from engine.types import Types, members
 
@@ -757,3 +760,70 @@ def run(rep: Report, prog: Program, tier: str) -> None:
     # ---------------- C19-SIM: close() between negotiation calls, through the negotiation simulator (rules/pcnego.py)
     from .pcnego import c19_sim
     c19_sim(rep, prog, tier)
+
+    # ---------------- C19-STOPEVAL: stop() of a started sender / receiver, evaluated for every combination of "its loops have already ended on their own"
+    # (a source track that ended, a peer that went away): every task the object started is cancelled - or known to have exited - and the object is unregistered
+    rep.rule("C19-STOPEVAL", "stop() of a started sender / receiver cancels every task it started whichever of them already ended, and unregisters from the transport", min_instances=6)
+    from .objhook import make_hook as _mk_se
+
+    class _Evt:
+        def __init__(self, is_set_: bool) -> None:
+            self._set = is_set_
+
+    for qn, tasks, unreg in (("rtcrtpsender.RTCRtpSender", [("__rtp_task", "__rtp_exited"), ("__rtcp_task", "__rtcp_exited")], "_unregister_rtp_sender"),
+                             ("rtcrtpreceiver.RTCRtpReceiver", [("__rtcp_task", "__rtcp_exited")], "_unregister_rtp_receiver")):
+        stop_f = prog.func(qn + ".stop")
+        for combo in itertools.product((False, True), repeat=len(tasks)):
+            log: List[str] = []
+
+            def _sx(call, evl, log=log):
+                nm = unparse(call.func)
+                if isinstance(call.func, ast.Attribute):
+                    try:
+                        base = evl.ev(call.func.value)
+                    except Unknown:
+                        base = None
+                    if isinstance(base, _Evt):
+                        if call.func.attr == "is_set":
+                            return base._set
+                        if call.func.attr in ("wait", "set", "clear"):
+                            return None
+                    if isinstance(base, SimpleNamespace) and getattr(base, "task_name", None) and call.func.attr == "cancel":
+                        log.append("cancel " + base.task_name)
+                        return None
+                    if call.func.attr == unreg:
+                        log.append("unregister")
+                        return None
+                if nm == "asyncio.gather":
+                    for a in call.args:
+                        evl.ev(a)
+                    return None
+                if nm.endswith("__stop_decoder") or nm.endswith("__log_debug"):
+                    return None
+                return NotImplemented
+            sh = _mk_se(prog, _sx)
+            me = SimpleNamespace(__cls__=stop_f.cls, _track=None)
+            setattr(me, "__started", True)
+            setattr(me, "__transport", SimpleNamespace(name="transport"))
+            for (tname, ename), ended in zip(tasks, combo):
+                setattr(me, tname, SimpleNamespace(task_name=tname))
+                setattr(me, ename, _Evt(ended))
+                setattr(me, ename.replace("_exited", "_started"), _Evt(True))
+            what = f"{qn.split('.')[-1]}.stop(): " + ", ".join(f"{t.strip('_')} {'already ended' if e else 'running'}" for (t, _e), e in zip(tasks, combo))
+            try:
+                sh.run_method(stop_f, me, [], {})
+            except Raised as ex:
+                rep.fail(mk_finding(prog, PROP, "C19-STOPEVAL", stop_f, getattr(ex, "node", None), f"{what}: raises {ex.name}", construct=f"stop raises {ex.name}"))
+                continue
+            except Unknown as ex:
+                raise AnalysisError(f"C19-STOPEVAL cannot evaluate {qn}.stop: {ex}")
+            left = [t for (t, _e), ended in zip(tasks, combo) if not ended and "cancel " + t not in log]
+            problems = []
+            if left:
+                problems.append(f"{', '.join(x.strip('_') for x in left)} still running and not cancelled")
+            if "unregister" not in log:
+                problems.append("not unregistered from the transport")
+            if problems:
+                rep.fail(mk_finding(prog, PROP, "C19-STOPEVAL", stop_f, stop_f.node, f"{what}: " + "; ".join(problems) + ": the task outlives close()", construct="stop leaves " + (left[0].strip("_") if left else "registration")))
+            else:
+                rep.ok("C19-STOPEVAL", what, sample=", ".join(log))
